@@ -503,6 +503,7 @@ package mcp
 //@   assert at call yield: @an-error-is-yielded-alone $1 != nil ==> $0 == nil && $1 == lastResult(list, 1)
 //@   assert at call yield: @items-come-from-the-current-page $1 == nil ==> calls(pageItems) == calls(list) && lastResult(list, 1) == nil
 //@   ensures @ends-on-error-stop-or-last-page calls(list) >= 1
+//@   ensures @ends-without-error-or-stop-only-at-a-page-without-next-cursor lastResult(list, 1) == nil && (calls(yield) == 0 || lastResult(yield, 0)) ==> calls(nextPtr) >= 1 && next == ""
 //@   ensures @an-error-ends-the-iteration lastResult(list, 1) != nil ==> calls(yield) == pageStart + 1
 //@   loop 1: invariant @consumer-still-wants-more (calls(yield) == 0 || lastResult(yield, 0)) && calls(pageItems) == calls(list) && (calls(list) >= 1 ==> calls(curPtr) >= 1 && *lastResult(curPtr, 0) == next && next != "")
 //@   loop 2: invariant @every-item-of-the-page-in-order calls(yield) == pageStart + $idx && (calls(yield) == 0 || lastResult(yield, 0)) && lastResult(list, 1) == nil && calls(pageItems) == calls(list)
